@@ -128,6 +128,7 @@ pub struct Agg {
     pub clock_jumps: u64,
     pub panicking_calls: u64,
     pub at_exit_calls: u64,
+    pub iters_moved: u64,
     pub env_reads: u64,
     pub env_perturbed: u64,
     pub env_keys: Vec<String>,
@@ -199,6 +200,7 @@ impl Agg {
         self.clock_jumps += r.clock_jumps;
         self.panicking_calls += r.panicking_calls;
         self.at_exit_calls += r.at_exit_calls;
+        self.iters_moved += r.iters_moved;
         self.env_reads += r.env_reads;
         self.env_perturbed += r.env_perturbed;
         for k in &r.env_keys {
@@ -507,10 +509,11 @@ pub fn check(tier_name: &str, base_seed: u64) -> Outcome {
             seam_clock, seam_env
         );
     }
+    let iter_send = crate::probe::iter_send_probe();
     let probe = crate::probe::send_sync_probe();
     println!(
-        "static facet: Regex: Send={} Sync={}",
-        probe.0, probe.1
+        "static facet: Regex: Send={} Sync={}; iterators Send: tokenize={} analyze={}",
+        probe.0, probe.1, iter_send.0, iter_send.1
     );
     let lanes = Lanes::start(env_usize("VERIF_LANES", t.workers), false);
     let nbatches = t.runs.div_ceil(t.batch);
@@ -1109,6 +1112,12 @@ pub fn check(tier_name: &str, base_seed: u64) -> Outcome {
                 "wall_s": determinism_s,
             },
             "static_facet": { "send": probe.0, "sync": probe.1 },
+            "iterator_types_send": {
+                "tokenize_iterator": iter_send.0,
+                "analyze_iterator": iter_send.1,
+                "live_iterators_handed_to_another_thread": a.iters_moved,
+                "note": "handing a live iterator to another thread is only legal (and only done) when its type is Send on the tree under test",
+            },
             "seam_selftests": { "clock_gettime_interposed": seam_clock, "getenv_interposed": seam_env },
             "path_purity": {
                 "explanation": "per call, the sequence of hook sites hit (the path through the library) is hashed; within one worker process the same request must always take the same path. A difference is not a C18 violation (results are compared separately) but shows history- or address-dependent behaviour; it is reported as a warning.",
